@@ -1836,6 +1836,29 @@ def m_localkey_with(it, callee, args, m):
     return it.call_closure(args[1], [Ref(Cell(val))])
 
 
+def m_localkey_borrow(it, callee, args, m):
+    """LocalKey<RefCell<T>>::with_borrow / with_borrow_mut for a *stateful* thread-local (`thread_local!{ static NAME:
+    RefCell<T> = init }`): the value is created once per executed path by the item's own initialiser
+    (`NAME::__rust_std_internal_init_fn`, real MIR) and then persists across calls - one thread, one path"""
+    key = args[0]
+    name = getattr(key, "tl_name", None) or (deref(key).tl_name if hasattr(deref(key), "tl_name") else None)
+    if name is None:
+        raise Unsupported("LocalKey::with_borrow on an unknown thread-local")
+    store = it.__dict__.setdefault("tls_store", {})
+    if name not in store:
+        init = [n for n in it.raw if n.endswith(name + "::__rust_std_internal_init_fn")] or \
+               [n for n in it.raw if n.endswith(name + "::__RUST_STD_INTERNAL_INIT")]  # `= const { .. }` form
+        if len(init) != 1:
+            raise Unsupported(f"initialiser of thread-local {name} not found: {init}")
+        store[name] = Cell(it.call_fn(init[0], []))
+    cell = store[name]
+    v = cell.v
+    # RefCell::new(x) is modelled as x itself or as a one-field wrapper: hand the closure a reference to the inner value
+    if isinstance(v, Adt) and v.name.split("<")[0].split("::")[-1] == "RefCell":
+        return it.call_closure(args[1], [Ref(cell, (("field", 0),))])
+    return it.call_closure(args[1], [Ref(cell)])
+
+
 def m_rc_new(it, callee, args, m):
     return BoxRef(Cell(args[0]))
 
@@ -2331,6 +2354,8 @@ MODELS = [
     (r"^<Vec<.*> as Default>::default$", m_vec_new),
     (r"^<VecDeque<.*> as Default>::default$", m_deque_new),
     (r"^LocalKey::<.*>::with::<", m_localkey_with),
+    (r"^LocalKey::<RefCell<.*>>::with_borrow(_mut)?::<", m_localkey_borrow),
+    (r"^RefCell::<.*>::new$", lambda it, c, a, m: a[0]),
     (r"^Box::<\[.*; \d+\]>::new_uninit$", m_box_new_uninit),
     (r"^(std::boxed::)?box_assume_init_into_vec_unsafe::<", m_box_into_vec),
     (r"^core::str::<impl str>::chars$", m_str_chars),
